@@ -368,3 +368,7 @@ def run(ctx):
     r4_futures_observed(ctx)
     r5_digest_covers_all_data(ctx)
     r6_failures_reach_the_exit_status(ctx)
+    from . import shared as _sh4
+
+    _sh4.restore_ignores_target_state(ctx, 'C04.R1')
+    _sh4.run_flags_are_per_run(ctx, 'C04.R3', ('restore',))
